@@ -39,7 +39,14 @@ def unit_switch_rule(repo: Repo, rep: Report, rid: str) -> None:
     ]
     ref = Formula(ast.parse("EXH or TC", mode="eval").body, lambda e: {"EXH": "EXHAUSTED", "TC": "TYPECHANGED"}.get(norm(e)))
     found = 0
+    from .compiled import fold_decides
+
     for rel, qn, exact in sites:
+        if rel == "compiler.py" and fold_decides(repo, rep.tier):
+            # the generator's bookkeeping is visible in what the generated readers do on every run of bit-fields: the compiled-reader fold decides
+            found += 1
+            rep.ok(rid, "compiler.py:shape:unit-switch", "the compiled-reader fold decides where the generator opens a new unit", "", nontrivial=False)
+            continue
         fi = repo.func(rel, qn)
         g = CFG(fi.node)
         cands = []
@@ -58,16 +65,22 @@ def unit_switch_rule(repo: Repo, rep: Report, rid: str) -> None:
             continue
         n, f = both[0]
         ok = f.always({"EXHAUSTED": True}, True) and f.always({"TYPECHANGED": True}, True)
-        if ok and exact:
+        opened = n.ast.body
+        if not ok and n.ast.orelse and f.always({"EXHAUSTED": True}, False) and f.always({"TYPECHANGED": True}, False):
+            # the negated form: 'if <still inside the unit>: ... else: <open a new unit>'
+            ok, opened = True, n.ast.orelse
+            if exact:
+                ok = equivalent(Formula(ast.UnaryOp(op=ast.Not(), operand=n.ast.test), _unit_interp), ref)
+        elif ok and exact:
             ok = equivalent(f, ref)
         rep.check(ok, rid, key, f"'{short(n.ast.test, 80)}' {'==' if exact else '>='} (exhausted or typechanged)",
                   f"unit-switch guard '{short(n.ast.test, 90)}' is not {'equivalent to' if exact else 'implied by'} (exhausted or type changed)", fi.loc(n.ast))
         # the remembered type is refreshed whenever a unit is opened: a guard that compares with a type it never re-assigns goes stale after the
         # first switch of storage type inside a run of bit-fields and then fires for every following field
-        tc = [c_ for c_ in ast.walk(n.ast.test) if isinstance(c_, ast.Compare) and len(c_.ops) == 1 and isinstance(c_.ops[0], ast.NotEq) and _unit_interp(c_) == "TYPECHANGED"]
+        tc = [c_ for c_ in ast.walk(n.ast.test) if isinstance(c_, ast.Compare) and len(c_.ops) == 1 and isinstance(c_.ops[0], (ast.NotEq, ast.Eq)) and _unit_interp(c_) in ("TYPECHANGED", ("not", "TYPECHANGED"))]
         if tc:
             sides = {norm(tc[0].left), norm(tc[0].comparators[0])}
-            refreshed = any(isinstance(s2, ast.Assign) and norm(s2.targets[0]) in sides and norm(s2.value) in sides for b_ in n.ast.body for s2 in ast.walk(b_))
+            refreshed = any(isinstance(s2, ast.Assign) and norm(s2.targets[0]) in sides and norm(s2.value) in sides for b_ in opened for s2 in ast.walk(b_))
             rep.check(refreshed, rid, f"{fi.key}:tracked-type-updated", "opening a unit records its storage type",
                       f"'{short(tc[0], 50)}' compares with a remembered type that the guard's body never refreshes: after the first change of storage type "
                       "inside a run of bit-fields every following bit-field looks like another change (uint16 x:4; uint8 a:2; uint8 b:2; counts a third unit), "
@@ -77,7 +90,7 @@ def unit_switch_rule(repo: Repo, rep: Report, rid: str) -> None:
             if isinstance(cmpx, ast.Compare) and len(cmpx.ops) == 1 and isinstance(cmpx.ops[0], ast.NotEq) and _unit_interp(cmpx) == "TYPECHANGED":
                 sides = [cmpx.left, cmpx.comparators[0]]
                 for t_side, o_side in (sides, sides[::-1]):
-                    stores = [s2 for s2 in n.ast.body for s2 in ast.walk(s2) if isinstance(s2, ast.Assign) and norm(s2.targets[0]) == norm(t_side)]
+                    stores = [s2 for s2 in opened for s2 in ast.walk(s2) if isinstance(s2, ast.Assign) and norm(s2.targets[0]) == norm(t_side)]
                     if stores:
                         rep.check(all(norm(s2.value) == norm(o_side) for s2 in stores), rid, f"{fi.key}:tracked-type",
                                   f"'{norm(t_side)}' remembers '{norm(o_side)}', the value it is compared with",
